@@ -10,9 +10,10 @@ EXTENDS Integers, Sequences, FiniteSets, TLC
 Statuses == {200, 204, 304, 301, 404, 500}
 Bodiless(s) == s \in {204, 304}
 
-\* ops: [k |-> "WH", s |-> status] | [k |-> "W", n |-> bytes] | [k |-> "F"]
+\* ops: [k |-> "WH", s |-> status] | [k |-> "W", n |-> bytes] | [k |-> "F"] | [k |-> "EH"]
+\* EH = an interim response (WriteHeader(103) with a Link header, "Early Hints") before the final one
 Ops(L) == {[k |-> "WH", s |-> s, n |-> 0] : s \in Statuses} \cup {[k |-> "W", s |-> 0, n |-> n] : n \in 0..(L + 1)}
-          \cup {[k |-> "F", s |-> 0, n |-> 0]}
+          \cup {[k |-> "F", s |-> 0, n |-> 0], [k |-> "EH", s |-> 0, n |-> 0]}
 
 \* the handler's intent under net/http semantics
 RECURSIVE Intent(_, _, _)
@@ -23,13 +24,19 @@ Intent(ops, i, st) ==
        CASE o.k = "WH" -> Intent(ops, i + 1, IF st.status = 0 THEN [st EXCEPT !.status = o.s] ELSE st)
          [] o.k = "W"  -> Intent(ops, i + 1, [st EXCEPT !.status = IF @ = 0 THEN 200 ELSE @, !.total = @ + o.n])
          [] o.k = "F"  -> Intent(ops, i + 1, [st EXCEPT !.status = IF @ = 0 THEN 200 ELSE @])
+         [] o.k = "EH" -> Intent(ops, i + 1, st)
 IntentOf(ops) == LET r == Intent(ops, 1, [status |-> 0, total |-> 0]) IN
                  [status |-> IF r.status = 0 THEN 200 ELSE r.status, total |-> r.total]
 
 \* legal for net/http: no body bytes for a bodiless status, WriteHeader at most once and first
+\* an interim response comes first if at all
+Lead(ops) == IF Len(ops) >= 1 /\ ops[1].k = "EH" THEN 1 ELSE 0
 WellFormed(ops) ==
-  /\ \A i \in DOMAIN ops : ops[i].k = "WH" => i = 1
-  /\ (Len(ops) >= 1 /\ ops[1].k = "WH" /\ Bodiless(ops[1].s)) => \A i \in DOMAIN ops : ops[i].k = "W" => ops[i].n = 0
+  /\ \A i \in DOMAIN ops : ops[i].k = "EH" => i = 1
+  /\ \A i \in DOMAIN ops : ops[i].k = "WH" => i = Lead(ops) + 1
+  /\ (Len(ops) > Lead(ops) /\ ops[Lead(ops) + 1].k = "WH" /\ Bodiless(ops[Lead(ops) + 1].s))
+        => \A i \in DOMAIN ops : ops[i].k = "W" => ops[i].n = 0
+ExpectedInterim(ops) == IF Lead(ops) = 1 THEN <<103>> ELSE <<>>
 
 \* something was put on the wire before the write that crosses the limit
 RECURSIVE SentBeforeExcess(_, _, _, _)
@@ -48,6 +55,7 @@ CheckResp(c, o) ==
   THEN (IF o.status # it.status THEN <<"WithinLimit_Status">> ELSE <<>>)
        \o (IF o.len # it.total \/ ~o.prefix THEN <<"WithinLimit_Body">> ELSE <<>>)
        \o (IF ~o.hdr THEN <<"WithinLimit_Header">> ELSE <<>>)
+       \o (IF o.interim # ExpectedInterim(c.ops) THEN <<"WithinLimit_Interim">> ELSE <<>>)
   ELSE (IF o.len > c.limit THEN <<"ResponseExceedsLimit">> ELSE <<>>)
        \o (IF ~o.prefix THEN <<"TruncatedNotPrefix">> ELSE <<>>)
        \o (IF o.len = 0 /\ ~SentBeforeExcess(c.ops, 1, 0, c.limit) /\ o.status # 413 THEN <<"Excess_No413">> ELSE <<>>)
@@ -60,10 +68,19 @@ CheckReq(c, o) ==
   \o (IF c.framing = "cl" /\ c.size > c.limit /\ (o.status # 413 \/ o.called) THEN <<"DeclaredTooLarge_Not413">> ELSE <<>>)
   \o (IF c.size <= c.limit /\ (o.status # 200 \/ o.got # c.size) THEN <<"WithinLimit_Request">> ELSE <<>>)
 
+\* HEAD: the handler declares a Content-Length (what a proxied backend does) and sends no body;
+\* c = [limit, declared, status]; o = [status, cl (received Content-Length or -1), hdr]
+CheckHead(c, o) ==
+  (IF o.status # c.status THEN <<"Head_Status">> ELSE <<>>)
+  \o (IF o.cl # c.declared THEN <<"Head_ContentLength">> ELSE <<>>)
+  \o (IF ~o.hdr THEN <<"Head_Header">> ELSE <<>>)
+
 SeqsUpTo(S, n) == UNION {[1..k -> S] : k \in 0..n}
 \* pos: the plugin alone, inside the logging plugin, or outside it
 Positions == {"alone", "inner", "outer"}
 RespCases(maxL, n) == UNION {{[kind |-> "resp", limit |-> L, ops |-> s, pos |-> p] : s \in {x \in SeqsUpTo(Ops(L), n) : WellFormed(x)}, p \in Positions} : L \in 1..maxL}
 ReqCases(maxL) == {[kind |-> "req", limit |-> L, size |-> z, framing |-> f, pos |-> p] :
                      L \in 1..maxL, z \in {0, 1, 2, 3, 4, 5, 6, 40, 400}, f \in {"cl", "chunked"}, p \in Positions}
+HeadCases(maxL) == {[kind |-> "head", limit |-> L, declared |-> d, status |-> st, pos |-> p] :
+                      L \in 1..maxL, d \in {0, 1, 2, 3, 4, 5, 400, 70000}, st \in {200, 404}, p \in Positions}
 =============================================================================
